@@ -6,15 +6,16 @@ META = {
 }
 import random
 from harness.core import cfg_text, Machinery
+from harness import tla
 from harness.drivers import lookup as drv
 
 PROPERTY_INVS = ["PackIsValidLines", "NeverInvalid", "HonoursRange", "NoModuliOnlyWhenEmpty", "OfferNonEmpty"]
 
 
-def consts(sizes, maxlines, reqvals, fix, mtypes=(2,), tests=(6,), tries=(100,), deltas=(0, 1)):
+def consts(sizes, maxlines, reqvals, fix, mtypes=(2,), tests=(6,), tries=(100,), deltas=(0, 1), maxfiles=1, cache=False):
     return {"Mtypes": set(mtypes), "Tests": set(tests), "Tries": set(tries), "Sizes": set(sizes),
             "Deltas": set(d + 1 for d in deltas), "MaxLines": maxlines,
-            "ReqVals": set(reqvals), "FixMinBound": fix}
+            "ReqVals": set(reqvals), "FixMinBound": fix, "MaxFiles": maxfiles, "CacheSizes": cache}
 
 
 def describe(lines, req, got):
@@ -44,10 +45,20 @@ def run(c):
                                       invariants=PROPERTY_INVS), name="repaired loops, 3-line files")
     if not cases or not vcases:
         raise Machinery("TLC emitted no cases")
+    # one pack, two files: read_file / get_modulus / read_file / get_modulus.  A size list kept from the first
+    # request (seeded design error CacheSizes) must be refuted; the repaired model must hold and emits every history
+    two = dict(sizes=[1, 3], maxlines=2, reqvals=[1, 3], deltas=(0,), maxfiles=2)
+    c.mc("Moduli", cfg_text(constants=consts(fix=True, cache=True, **two), invariants=["NoKeyError"]), expect="NoKeyError",
+         name="seeded error: size list cached across read_file()", workers=4)
+    r3 = c.mc_holds("Moduli", cfg_text(constants=consts(fix=True, **two), invariants=PROPERTY_INVS + ["NoKeyError", "EmitHistory"]),
+                    name="two files into one pack", workers=4)
+    hists = [tla.parse(h[1]) for h in r3.printed("HIST")]
+    if len(hists) < 1000:
+        raise Machinery("expected the two-file histories, got %d" % len(hists))
     # ---- RP: spec -> code.  The emitted `acceptable` set is the statement's demand (both readings of "size")
     n_emitted = len(cases) + len(vcases)
     if q:
-        vcases = rnd.sample(vcases, min(len(vcases), 6000))
+        vcases = rnd.sample(vcases, min(len(vcases), 4000))
     batch = []
     for _, lines, req, status, offer, acceptable in cases + vcases:
         off = rnd.choice([64, 1020, 2040])
@@ -57,6 +68,18 @@ def run(c):
         c.case(key=key, sample=describe(lines, req, g) if len(lines) == 2 and len(c.samples) < 3 else None)
         batch.append({"lines": lines, "req": req, "got": g, "text": text, "off": off,
                       "spec_status": status, "spec_offer": sorted(offer)})
+    # histories on ONE pack: every lookup is judged against the file read last (read_file starts the pack afresh)
+    for hist in hists:
+        off = 1020
+        rounds = [(lines, req) for lines, req in hist]
+        res_h = drv.run_moduli_history(rounds, off=off)
+        for (lines, req), (g, text) in zip(rounds, res_h):
+            batch.append({"lines": lines, "req": req, "got": g, "text": text, "off": off, "round": True,
+                          "spec_status": None, "spec_offer": []})
+        c.case(key="hist|%s" % (hist,), n=len(rounds),
+               sample={"one_pack_history": [{"sizes_on_file": [ln["bits"] + off for ln in lines], "request": [x + off for x in req], "got_line": g}
+                                            for (lines, req), (g, _t) in zip(rounds, res_h)]} if len(c.samples) < 4 and len(rounds[1][0]) == 2 else None)
+    n_hist_rounds = sum(1 for b in batch if b.get("round"))
     c.traces += len(batch)
     # ---- TV: code -> spec, realistic sizes
     sizes_real = [1023, 1024, 1535, 1536, 2047, 2048, 3071, 3072, 4095, 4096, 6143, 8191]
@@ -96,7 +119,7 @@ def run(c):
                               invariants=["Report"]))
     if len(res["DONE"]) != len(batch):
         raise Machinery("trace validation consumed %d of %d records" % (len(res["DONE"]), len(batch)))
-    c.traces += len(batch) - len(cases) - len(vcases)
+    c.traces += len(batch) - len(cases) - len(vcases) - n_hist_rounds
     seen = set()
     for row in res["VERDICT"]:
         tid, bad = row[1], row[-1]
@@ -113,7 +136,7 @@ def run(c):
             else:
                 c.conformance(clause, what)
     # the replayed cases came with the spec's own prediction (repaired loops): used only as conformance
-    for b in batch[:len(cases) + len(vcases)]:
+    for b in [x for x in batch[:len(cases) + len(vcases) + n_hist_rounds] if not x.get("round")]:
         exp = 0 if b["spec_status"] == "no_moduli" else None
         if (exp == 0) != (b["got"] == 0) or (b["got"] > 0 and b["got"] not in b["spec_offer"]):
             c.conformance("C_replay_differs_from_repaired_spec", "lines %s request %s: code line %s, spec offer %s" % (
@@ -122,8 +145,9 @@ def run(c):
     c.extra["pinned_model_counterexample"] = pinned_violates
     c.extra["exhaustive"] = n_emitted == len(cases) + len(vcases)   # quick replays a seeded sample of the line-validity space
     c.rule = ("every moduli file of <= 2 lines over %d sizes x {size = bits, size = bits - 1} x every (min, prefer, max) over %d values, "
-              "every single-line file over type 0-3 x tests 0-15 x tries {0,99,100,101} x bits-size {-1,0,1,2} (TLC-enumerated; quick tier replays a seeded sample of 6000 of them on "
-              "ModulusPack) + seeded random files with real bit sizes and noise lines; distinct = distinct (line classes, request)"
+              "every single-line file over type 0-3 x tests 0-15 x tries {0,99,100,101} x bits-size {-1,0,1,2} (TLC-enumerated; quick tier replays a seeded sample of 4000 of them on "
+              "ModulusPack) + every history read_file/get_modulus/read_file/get_modulus on ONE pack over files of <= 2 lines x 2 sizes x 8 requests "
+              "(each lookup judged against the file read last) + seeded random files with real bit sizes and noise lines; distinct = distinct (line classes, request)"
               % (len(list(sel["sizes"])), len(list(sel["reqvals"]))))
     c.assumptions = ["the returned modulus identifies its line (generated moduli are pairwise distinct)",
                      "sizes in replayed cases are shifted by a constant offset (get_modulus only compares sizes)"]
